@@ -377,27 +377,27 @@ func corrC16(outDir string, seed uint64, tier string, replay string) *report {
 			// random data, and the extreme symbol patterns: all bits clear (first alphabet symbol only), all bits set
 			// (last symbol only), alternating
 			for pat := 0; pat < 4; pat++ {
-			src := r.bytes(nb)
-			for k := range src {
-				switch pat {
-				case 1:
-					src[k] = 0
-				case 2:
-					src[k] = 0xFF
-				case 3:
-					src[k] = []byte{0x82, 0x20, 0x08}[k%3] // every symbol has index 2
-				}
-			}
-			t := encs[c].EncodeToString(src)
-			for pos := 0; pos <= len(t); pos += 1 + len(t)/14 {
-				for run := 1; run <= 20; run += 1 + run/6 {
-					nl := strings.Repeat("\n", run)
-					if run%2 == 0 {
-						nl = strings.Repeat("\r\n", run/2)
+				src := r.bytes(nb)
+				for k := range src {
+					switch pat {
+					case 1:
+						src[k] = 0
+					case 2:
+						src[k] = 0xFF
+					case 3:
+						src[k] = []byte{0x82, 0x20, 0x08}[k%3] // every symbol has index 2
 					}
-					doDec(c, t[:pos]+nl+t[pos:], pat == 0 && (run <= 3 || run == 8 || run == 9 || run >= 16), "newline_run")
 				}
-			}
+				t := encs[c].EncodeToString(src)
+				for pos := 0; pos <= len(t); pos += 1 + len(t)/14 {
+					for run := 1; run <= 20; run += 1 + run/6 {
+						nl := strings.Repeat("\n", run)
+						if run%2 == 0 {
+							nl = strings.Repeat("\r\n", run/2)
+						}
+						doDec(c, t[:pos]+nl+t[pos:], pat == 0 && (run <= 3 || run == 8 || run == 9 || run >= 16), "newline_run")
+					}
+				}
 			}
 		}
 	}
